@@ -52,6 +52,14 @@ def real_fullfsync():
         return None
 
 
+def path_operand(call):
+    """The path an unlink-like call works on: the first argument of `os.remove(p)` / `os.unlink(p)`, the receiver of `p.unlink()`."""
+    if isinstance(call.func, ast.Attribute) and call.func.attr in ('unlink', 'rmdir', 'rename', 'replace', 'touch', 'write_bytes', 'write_text') and not \
+            (isinstance(call.func.value, ast.Name) and call.func.value.id in ('os', 'shutil')):
+        return call.func.value
+    return call.args[0] if call.args else None
+
+
 def loose_key_expr(K, arg, frame, depth=0):
     """For an expression denoting a loose path, return (key expr, frame) of the hash key it is built from."""
     if depth > 4:
@@ -106,7 +114,7 @@ class PackSites:
                     if p.isidentifier():
                         self.stage_lists.add((n.frame.id, p))
                 elif e[0] == 'UNLINK' and in_area(K, e[1], 'loose'):
-                    ke = loose_key_expr(K, n.ast.args[0], n.frame) if n.ast.args else None
+                    ke = loose_key_expr(K, path_operand(n.ast), n.frame) if path_operand(n.ast) is not None else None
                     hit = None
                     if ke is not None:
                         for o in origin(K, ke[0], ke[1]):
